@@ -576,12 +576,16 @@ PROPS = {
     },
     "C05": {
         "module": "DnsModel.Theorems.C05",
-        "theorems": [],
+        "theorems": ["Dns.C05.uncompress_canonical", "Dns.C05.output_layout", "Dns.C05.decompress_ok", "Dns.C05.decompressed_accepted",
+                     "Dns.C05.decompress_fixed_point", "Dns.C05.layout_unique", "Dns.C05.uncompress_any", "Dns.C05.boundaries"],
         "families": [{"name": "uncompress-boundary", "quick": 0, "thorough": 0, "fixed": True}, {"name": "uncompress", "quick": 700, "thorough": 40000}],
         "oracle": oracle_c05,
         "nontrivial": lambda c, a: a.startswith("ok"),
         "rule": "accepted packets (4 layouts, OPT anywhere) x {plain decompression + second run, 3 random record boundaries, end of packet}; non-trivial = distinct successful calls",
-        "level": "other", "explanation": "", "assumptions": [],
+        "level": "proof",
+        "explanation": "theorems: on every packet the model's parse accepts, the model of decompression succeeds and returns the 12 header bytes followed by the canonical form of the question and of every record in wire order (owner and NS/CNAME/PTR/MX/SOA names replaced by the pointer-free encoding of the same labels, fixed fields and all other data including OPT verbatim, data length recomputed); that output satisfies the acceptance policy, has a layout with the same record types whose pieces are their own canonical forms (no pointer in any name), is a fixed point of decompression, and the start of the i-th record / the question / the end of the input is carried to the start of the i-th record / the question / the end of the output; "
+                       "correspondence: the real decompression is byte-identical to the model's on every generated accepted packet and boundary; the Python reference decoder compares decoded messages",
+        "assumptions": ["offsets that are not record boundaries are outside the property; the model (like the code) panics on them"],
     },
     "C06": {
         "module": "DnsModel.Theorems.C06",
@@ -726,8 +730,8 @@ MANIFEST_TEXT = {
             "note": NOTE, "technique": "Lean 4 proof (walk/decoding lemmas over the policy derivation) + model/implementation correspondence + reference decoder oracle"},
     "C04": {"text": "Lean theorems for every accepted packet: transaction id, opcode, rcode, response bit, each bit of the 32-bit flag word (opcode/rcode masked, EDNS flags in the upper half), DNSSEC indicator (AD for responses, DO for queries), question in raw / raw-without-root / lowercase-text form with type and class (cache empty and filled), and EDNS start, option count, extended rcode, version, flags and payload size equal the values at the positions the declarative policy assigns - those of the single OPT record, or none/0/512 without one. Real getters compared with the model and with values decoded independently from the bytes by div/mod.",
             "note": NOTE, "technique": "Lean 4 proof (EDNS state tracking through the validator, bit lemmas, decoding lemmas) + model/implementation correspondence + div/mod oracle"},
-    "C05": {"text": "Model of uncompress_with_previous_offset; on every generated accepted packet and record boundary the real output equals the model's, is the canonical pointer-free encoding of the decoded message, is accepted, is a fixed point, and carries the boundary across." + PENDING,
-            "note": NOTE, "technique": "model/implementation correspondence + reference decoder oracle"},
+    "C05": {"text": "Lean theorems for every accepted packet: decompression succeeds; its output is the header followed by the canonical pointer-free form of the question and of every record in wire order (same labels in every owner and NS/CNAME/PTR/MX/SOA name, fixed fields and all other data incl. OPT verbatim, data length recomputed); the output satisfies the acceptance policy (hence is accepted), its records have the same types and are their own canonical forms (no compression pointer in any name), a second decompression returns it unchanged, and every record boundary / the question / the end of the input is carried to the corresponding boundary of the output. Real output byte-identical to the model's on every generated accepted packet and boundary; the reference decoder compares the decoded messages.",
+            "note": NOTE, "technique": "Lean 4 proof (walks as folds, canonical-form relation, translation invariance of the policy under copying, determinism of layouts) + model/implementation correspondence + reference decoder oracle"},
     "C06": {"text": "Model of compress() with the 32-entry suffix dictionary (depth-tracked); real output byte-identical to the model's on random messages and on the dictionary families (31..70 suffixes, 126..255-byte suffixes, nesting to 40, offsets beyond 16383, mixed case, OPT anywhere); oracle checks acceptance, no growth, message equality up to case, question bytes. Emission lemmas (NameAt.mono/append/emit_ptr) are proved." + PENDING,
             "note": NOTE, "technique": "model/implementation correspondence + reference decoder oracle + proved emission lemmas"},
     "C07": {"text": "Model of Renamer (replace_raw, per-type rdlen, OPT in place); real output byte-identical to the model's; oracle compares the decoded result with the specified renaming of the decoded input (matches at every depth, near-misses, case, growth past 255)." + PENDING,
